@@ -94,7 +94,7 @@ def other_grid(rng, spec, same_span=False):
 
 
 def run_case(rng, tier, case):
-    base = gen.gen_mixed_portfolio(rng, kinds=('contract', 'contract', 'contract', 'transport', 'storage', 'multi', 'plant', 'chp', 'structured', 'scaled', 'coarse', 'periodic', 'orderbook', 'coarse_pair'),
+    base = gen.gen_mixed_portfolio(rng, kinds=('contract', 'contract', 'contract', 'transport', 'storage', 'multi', 'plant', 'chp', 'structured', 'scaled', 'coarse', 'periodic', 'orderbook', 'coarse_pair', 'chp_minload', 'storage_mip'),
                                    grid_kw={'steps': (4, 18)}, n_assets=(2, 5), n_nodes=(1, 3))
     spec = add_dicts(rng, base)
     spec = variant_forms(rng, spec)
